@@ -268,6 +268,7 @@ func scenario(flavor string, h []Step, mode string, eager bool) *explore.Scenari
 		var liveInstances, liveWatches, liveWatchGoroutines int
 		var watchPaths string
 		var applyErr error
+		manualMismatch := ""
 		faultHit := false
 		in := &explore.Instance{Names: []string{"main"}}
 		in.Threads = []func(){func() {
@@ -299,6 +300,20 @@ func scenario(flavor string, h []Step, mode string, eager bool) *explore.Scenari
 						opts = append(opts, cdi.WithAutoRefresh(*s.Auto))
 					}
 					configure(opts...)
+					// a cache switched (or left) in manual mode by a reconfiguration must answer like a new
+					// manual cache created now: a new cache scans when it is created, so the reconfigured
+					// one must have scanned too (later directory changes are invisible to both)
+					cur := finalOptions(h[:i+1])
+					if !cur.auto && cache != nil && manualMismatch == "" {
+						ds := map[string]bool{}
+						for _, p := range absDirs(root, []string{"d0", "d1", "d2"}) {
+							ds[p] = true
+						}
+						nc, _ := cdi.NewCache(cdi.WithSpecDirs(absDirs(root, cur.dirs)...), cdi.WithAutoRefresh(false))
+						if ok, what, detail := sameAnswers(dirmodel.Observe(cache), dirmodel.Observe(nc), ds); !ok {
+							manualMismatch = what + ": right after " + s.String() + ": " + detail
+						}
+					}
 				case "fs":
 					if err := fsops.Apply(modelFS{}, root, *s.Op, i); err != nil {
 						applyErr = fmt.Errorf("%s: %w", s, err)
@@ -366,6 +381,9 @@ func scenario(flavor string, h []Step, mode string, eager bool) *explore.Scenari
 				if s.Kind == "configure" {
 					last = "after-" + s.String()
 				}
+			}
+			if manualMismatch != "" {
+				return "manual-reconfiguration-differs-from-new-cache:" + strings.SplitN(manualMismatch, ":", 2)[0], fmt.Sprintf("in %v: %s", h, manualMismatch), nil
 			}
 			// (1) answers equal a new cache with the final options on the tree as it was before the probes
 			for _, d := range []string{"d0", "d1", "d2"} {
